@@ -52,6 +52,7 @@ EXTRACT = ["maxBody", "maxHeader"]
 ASSUMPTIONS = [
     "parameters of the model (every theorem quantifies over all their behaviours): UTF-8 decoding of the header line, the text/* test on the meta, bytes.decode(charset) on the body (ok / UnicodeDecodeError / LookupError / any other exception); the harness evaluates them in Python per case and hands the results to the model",
     "asyncio contract used by the model: data_received is not called after transport.close(); an exception escaping data_received makes the transport call connection_lost(exc); connection_lost is called exactly once",
+    "translation of _parse_header: assumed about Python and nothing else - str.split(' ', 1) is the cut at the first space; len(t)==2 and t.isascii() and t.isdigit() holds exactly for two ASCII digits and int(t) is then their value; the translated code runs on the bytes the header text was decoded from",
     "asyncio.wait_for (the timeout cut-off) is not modelled in Lean: it is checked by the virtual-clock family `session` and the real-time family `live` only",
     "families overlap / liveoverlap: connections are attributed to the calls of a case by a context variable (virtual loop) or by the server port and the order of the TCP connects (loopback TLS; two calls to the same server start at least 0.4 s apart)",
     "reads of more than 256 KiB do not occur with real asyncio transports; the protocol-object family nevertheless delivers streams of > 10 MiB in one read (that is how the fixed segmentation defects were found)",
